@@ -219,7 +219,16 @@ func (c *treeCtx) runHistory(run *hx.Run, h history, seedTag string) {
 		}
 	}
 	// what the node has stored
+	delivered := map[int]bool{}
+	for _, b := range h.Batches {
+		for _, id := range b {
+			delivered[id] = true
+		}
+	}
 	for _, n := range t.Nodes[1:] {
+		if !delivered[n.ID] {
+			continue
+		}
 		hash := n.Block.Hash()
 		blk := bc.GetBlockByHash(hash)
 		if blk == nil {
